@@ -105,7 +105,7 @@ func runConservation(e *Env, prop string) {
 	stalls := e.Chance(1, 2)
 	nClients := e.Range(1, 4)
 	nSeries := e.Range(1, 6)
-	nDgrams := e.Range(1, 30)
+	nDgrams := e.Range(1, 30*e.Depth())
 
 	be := &RecBackend{BName: "rec", SyncGate: NewGate("sync"), CbGate: NewGate("cb")}
 	cfg.Backends = []gostatsd.Backend{be}
